@@ -86,6 +86,10 @@ def body_yaml(body, model, recipe_name):
             e = {"path": spec["path"]}
             if spec.get("libs"): e["libs"] = list(spec["libs"])
             if _envmap(spec.get("environment") or {}): e["environment"] = _envmap(spec["environment"])
+            if spec.get("netAccess") is not None: e["netAccess"] = spec["netAccess"]
+            if spec.get("fingerprint"):
+                e["fingerprintScript"] = 'echo tool-fp'
+                e["fingerprintIf"] = True
             pt[t] = e
         out["provideTools"] = pt
     for step in STEPS:
@@ -96,12 +100,18 @@ def body_yaml(body, model, recipe_name):
                 kind = "plain"
                 if step == "package" and slot == "script" and body.get("tooldirs"): kind = "tooldirs"
                 if step == "build" and slot == "script" and body.get("fp"): kind = "fp"
-                out[step + key] = S.recorder(fid, step, kind)
+                inc = (model.get("fraginc") or {}).get(str(fid))
+                if inc and inc[1] not in (model.get("inc") or {}): inc = None
+                out[step + key] = S.recorder(fid, step, kind, inc)
         for lst, key in (("vars", "Vars"), ("varsWeak", "VarsWeak"), ("tools", "Tools"), ("toolsWeak", "ToolsWeak")):
             if sp.get(lst): out[step + key] = list(sp[lst])
     if body.get("checkoutDeterministic"): out["checkoutDeterministic"] = True
     if body.get("import"):
         out["checkoutSCM"] = [{"scm": "import", "url": "src/" + recipe_name, "dir": "imp", "prune": True}]
+    for k in ("buildNetAccess", "packageNetAccess", "jobServer"):
+        if body.get(k) is not None: out[k] = body[k]
+    if body.get("auditFiles"): out["packageAuditFiles"] = dict(body["auditFiles"])
+    if body.get("provideSandbox"): out["provideSandbox"] = dict(body["provideSandbox"])
     if body.get("shared"): out["shared"] = True
     if body.get("relocatable") is not None: out["relocatable"] = bool(body["relocatable"])
     if body.get("fp"):
@@ -131,6 +141,8 @@ def render(model, root, clock=None):
         want["classes/%s.yaml" % name] = yaml.dump(body_yaml(body, model, name), Dumper=D, sort_keys=True, width=10000)
     for rel, text in model["files"].items():
         want["src/" + rel] = text
+    for name, text in (model.get("inc") or {}).items():
+        want["recipes/inc/" + name] = text
     for r in model["recipes"]:
         bodies = [r["body"]] + list((r.get("multi") or {}).values())
         if any(b.get("import") for b in bodies):
@@ -315,7 +327,13 @@ def model_st(min_recipes=2, max_recipes=7, richness=1, multi=True):
             if recipes[i]["body"]["import"]:
                 for fn in draw(st.lists(st.sampled_from(["a.txt", "b.txt", "sub/c.txt"]), min_size=1, max_size=3, unique=True)):
                     files["r%d/%s" % (i, fn)] = "content %d\n" % fid()
-        model = {"recipes": recipes, "classes": classes,
+        inc, fraginc = {}, {}
+        if richness > 0 and draw(st.integers(0, 2)) == 0:
+            for nm in draw(st.lists(st.sampled_from(["a.txt", "b.txt"]), min_size=1, max_size=2, unique=True)):
+                inc[nm] = "inc %d\n" % fid()
+            for f in draw(st.lists(st.integers(1, max(1, counter[0])), max_size=3, unique=True)):
+                fraginc[str(f)] = [draw(st.sampled_from(["q", "q", "q", "f"])), draw(st.sampled_from(sorted(inc)))]
+        model = {"recipes": recipes, "classes": classes, "inc": inc, "fraginc": fraginc,
                  "defaults": {"environment": _env_st(draw, 2, PLAIN_VALUES + [None]), "alias": {}},
                  "defines": _env_st(draw, 1, PLAIN_VALUES) if draw(st.integers(0, 2)) == 0 else {},
                  "files": files, "clock": 0, "nextfid": counter[0] + 1}
@@ -325,7 +343,7 @@ def model_st(min_recipes=2, max_recipes=7, richness=1, multi=True):
 # ---------------------------------------------------------------------------------------
 # edits: model -> model, chosen by small integers (resolved modulo what exists)
 
-EDIT_KINDS = ["frag", "frag", "move_frag", "var_value", "var_value", "varlist", "varlist", "dep_add", "dep_remove",
+EDIT_KINDS = ["inc_mod", "inc_toggle", "frag", "frag", "move_frag", "var_value", "var_value", "varlist", "varlist", "dep_add", "dep_remove",
               "dep_param", "dep_swap", "provide_var", "tool_attr", "tool_use", "file_mod", "file_add", "file_del",
               "define", "default_env", "class_frag", "provide_deps", "flag", "revert"]
 
@@ -357,6 +375,28 @@ def apply_edit(model, edit, history):
     def newfid():
         f = m.get("nextfid", 1000); m["nextfid"] = f + 1; return f
     lab, body, ri = bodies[a % len(bodies)]
+    if kind == "inc_mod":
+        inc = m.setdefault("inc", {})
+        nm = ["a.txt", "b.txt"][b % 2]
+        if nm in inc and c % 4 == 0 and not any(v[1] == nm for v in (m.get("fraginc") or {}).values()):
+            del inc[nm]
+            return m, "delete include file %s" % nm
+        inc[nm] = ("inc %d\n" % newfid()) if c % 2 else inc.get(nm, "") + "more\n"
+        return m, "modify include file %s" % nm
+    if kind == "inc_toggle":
+        inc = m.setdefault("inc", {})
+        if not inc:
+            inc["a.txt"] = "inc %d\n" % newfid()
+        fi = m.setdefault("fraginc", {})
+        # pick an existing fragment of the chosen body
+        fr = [sp.get(sl) for sp in (body.get("steps") or {}).values() for sl in ("setup", "script", "finalize") if sp.get(sl) is not None]
+        if not fr: return m, "noop"
+        f = str(fr[b % len(fr)])
+        if f in fi:
+            del fi[f]
+            return m, "%s fragment %s drops its include" % (lab, f)
+        fi[f] = [["q", "q", "f"][c % 3], sorted(inc)[d % len(inc)]]
+        return m, "%s fragment %s includes %s (%s)" % (lab, f, fi[f][1], fi[f][0])
     if kind == "frag":
         step = STEPS[b % 3]
         slot = ("script", "setup", "finalize")[c % 3]
